@@ -2,6 +2,7 @@
 #![allow(clippy::too_many_arguments, clippy::type_complexity)]
 
 mod args;
+mod callwatch;
 mod crashimg;
 mod engines;
 mod indep;
